@@ -31,6 +31,8 @@ import . "github.com/pbenner/threadpool"
 type ScalarIid struct {
   Estimator ScalarEstimator
   n         int
+  // number of entries of each observation in the current data set
+  dims    []int
 }
 
 /* -------------------------------------------------------------------------- */
@@ -48,6 +50,7 @@ func (obj *ScalarIid) Clone() *ScalarIid {
   r := ScalarIid{}
   r.Estimator = obj.Estimator.CloneScalarEstimator()
   r.n         = obj.n
+  r.dims      = obj.dims
   return &r
 }
 
@@ -87,7 +90,9 @@ func (obj *ScalarIid) SetData(x []ConstVector, n int) error {
     return fmt.Errorf("data has invalid dimension (expected dimension `%d' but data has dimension `%d)", obj.n, m)
   }
   y := NullDenseVector(x[0].ElementType(), m)
+  obj.dims = make([]int, len(x))
   for i, k := 0, 0; i < len(x); i++ {
+    obj.dims[i] = x[i].Dim()
     for j := 0; j < x[i].Dim(); j++ {
       y.At(k).Set(x[i].ConstAt(j))
       k++
@@ -100,6 +105,25 @@ func (obj *ScalarIid) SetData(x []ConstVector, n int) error {
  * -------------------------------------------------------------------------- */
 
 func (obj *ScalarIid) Estimate(gamma ConstVector, p ThreadPool) error {
+  if gamma != nil {
+    // gamma holds one weight per observation, whereas the scalar estimator
+    // operates on the concatenated entries of all observations
+    if gamma.Dim() != len(obj.dims) {
+      return fmt.Errorf("gamma has invalid dimension (expected dimension `%d' but gamma has dimension `%d')", len(obj.dims), gamma.Dim())
+    }
+    m := 0
+    for i := 0; i < len(obj.dims); i++ {
+      m += obj.dims[i]
+    }
+    g := NullDenseFloat64Vector(m)
+    for i, k := 0, 0; i < len(obj.dims); i++ {
+      for j := 0; j < obj.dims[i]; j++ {
+        g.At(k).SetFloat64(gamma.ConstAt(i).GetFloat64())
+        k++
+      }
+    }
+    return obj.Estimator.Estimate(g, p)
+  }
   return obj.Estimator.Estimate(gamma, p)
 }
 
